@@ -54,6 +54,7 @@ def rust_unescape(body):
 
 class StrFlow(S.SemFlow):
     tables = {}
+    STRUCTURED = ("strbuf",)
 
     def operand(self, P, txt):
         t = txt.strip()
@@ -65,9 +66,14 @@ class StrFlow(S.SemFlow):
         m = re.fullmatch(r'const "(.*)"', t, re.S)
         if m:
             return ("strlit", rust_unescape(m.group(1)))
+        m = re.fullmatch(r'const b"(.*)"', t, re.S)
+        if m:
+            return ("bytes", list(rust_unescape(m.group(1)).encode("latin-1")))
         m = re.fullmatch(r"const (-?\d+)_i32", t)
         if m:
             return ("int", int(m.group(1)))
+        if re.fullmatch(r"[A-Za-z_]\w*", t) and any(f.short == t for f in self.fns.values()):
+            return ("fnitem", t)                # a function of the same module passed by name (`.map(value_to_json)`)
         return S.SemFlow.operand(self, P, txt)
 
     def rvalue(self, P, txt):
@@ -102,11 +108,59 @@ class StrFlow(S.SemFlow):
         return S.SemFlow.rvalue(self, P, txt)
 
     def term(self, v):
-        if isinstance(v, tuple) and v and v[0] in ("strlit", "strbuf", "chariter", "bytes"):
+        if isinstance(v, tuple) and v and v[0] in ("strlit", "strbuf", "chariter", "bytes", "byteiter", "vec", "viter", "fmtarg", "fmtargs", "nameref", "dict", "mapped"):
             k = self._opaque.setdefault(id(v), len(self._opaque))
             self._keep.append(v)
             return const("opaque_%s_%d" % (v[0], k))
         return S.SemFlow.term(self, v)
+
+
+def fmt_models(as_items):
+    """`format!` with `{}` placeholders: the template bytes of fmt::Arguments::new are read from the MIR constant (a run of literal bytes is
+    length-prefixed, 0xC0 is a placeholder with default formatting, 0x00 ends the template; anything else is unsupported)"""
+    def new_display(flow, P, callee, args):
+        return ("fmtarg", flow.deref_all(P, args[0]))
+
+    def args_new(flow, P, callee, args):
+        tpl = flow.deref_all(P, args[0])
+        arr = flow.deref_all(P, args[1])
+        if not (isinstance(tpl, tuple) and tpl[0] == "bytes") or not (isinstance(arr, tuple) and arr[0] == "agg" and arr[1].startswith("array")):
+            raise Unsupported("fmt::Arguments::new(%r, %r)" % (tpl, arr))
+        return ("fmtargs", tpl[1], list(arr[2]))
+
+    def fmt_format(flow, P, callee, args):
+        a = flow.deref_all(P, args[0])
+        if not (isinstance(a, tuple) and a[0] == "fmtargs"):
+            raise Unsupported("fmt::format(%r)" % (a,))
+        tpl, fa = a[1], list(a[2])
+        out, i, k = [], 0, 0
+        while i < len(tpl):
+            b = tpl[i]
+            if b == 0:
+                break
+            if b < 0x80:
+                out += [z3.IntVal(ord(c)) for c in bytes(tpl[i + 1:i + 1 + b]).decode("utf-8")]
+                i += 1 + b
+            elif b == 0xC0:
+                if k >= len(fa) or not (isinstance(fa[k], tuple) and fa[k][0] == "fmtarg"):
+                    raise Unsupported("format placeholder without a Display argument")
+                out += as_items(flow, P, fa[k][1])
+                k += 1
+                i += 1
+            else:
+                raise Unsupported("format template byte 0x%02x (a non-default format spec)" % b)
+        if k != len(fa):
+            raise Unsupported("format arguments left over")
+        return ("strbuf", out)
+
+    def ident(flow, P, callee, args):
+        return args[0]
+
+    return [(r"Argument::<'_>::new_display::<", new_display), (r"Arguments::<'_>::new::<", args_new),
+            (r"^std::fmt::format$|alloc::fmt::format$", fmt_format), (r"^must_use::<String>$", ident)]
+
+
+INPUT = const("the_input")
 
 
 def models(chars):
@@ -153,7 +207,56 @@ def models(chars):
         wr(flow, P, args[0], ("chariter", it[1] + 1))
         return ("agg", "Option::Some", [("sint", chars[it[1]])])
 
-    return [(r"String::with_capacity$|String::new$", s_new), (r"String::push$", s_push), (r"String::push_str$", s_push_str),
+    def as_items(flow, P, x):
+        v = flow.deref_all(P, x)
+        if isinstance(v, tuple) and v and v[0] == "strlit":
+            return [z3.IntVal(ord(c)) for c in v[1]]
+        if isinstance(v, tuple) and v and v[0] == "strbuf":
+            return list(v[1])
+        if z3.is_expr(v) and v.eq(INPUT):
+            return list(chars)
+        raise Unsupported("not a string value: %r" % (v,))
+
+    def s_bytes(flow, P, callee, args):
+        v = flow.deref_all(P, args[0])
+        if not (z3.is_expr(v) and v.eq(INPUT)):
+            raise Unsupported("str::bytes of something else than the input")
+        return ("byteiter",)
+
+    def utf8(c):
+        """(byte term, present) for the up to four UTF-8 bytes of the scalar value c"""
+        w = z3.If(c < 0x80, 1, z3.If(c < 0x800, 2, z3.If(c < 0x10000, 3, 4)))
+        b0 = z3.If(w == 1, c, z3.If(w == 2, 0xC0 + c / 64, z3.If(w == 3, 0xE0 + c / 4096, 0xF0 + c / 262144)))
+        b1 = z3.If(w == 2, 0x80 + c % 64, z3.If(w == 3, 0x80 + (c / 64) % 64, 0x80 + (c / 4096) % 64))
+        b2 = z3.If(w == 3, 0x80 + c % 64, 0x80 + (c / 64) % 64)
+        b3 = 0x80 + c % 64
+        return [(b0, z3.BoolVal(True)), (b1, w >= 2), (b2, w >= 3), (b3, w >= 4)]
+
+    def b_quant(flow, P, callee, args):
+        it = flow.deref_all(P, args[0])
+        if not (isinstance(it, tuple) and it and it[0] == "byteiter"):
+            raise Unsupported("any/all on %r" % (it,))
+        mm = re.search(r"\{closure@([^}]*)\}", callee)
+        if not mm:
+            raise Unsupported("closure type in " + callee)
+        loc = mm.group(1).strip()
+        cf = [f for f in flow.fns.values() if "{closure#" in f.short and f.params and loc in f.params[0][1]]
+        if len({f.name for f in cf}) != 1:
+            raise Unsupported("closure at %s not found uniquely" % loc)
+        is_any = callee.rsplit("::", 1)[-1].startswith("any") or "::any::<" in callee
+        terms = []
+        for c in chars:
+            for b, present in utf8(c):
+                r = flow.inline(P, cf[0], [args[1], ("sint", b)])
+                if isinstance(r, tuple) and r and r[0] == "fork":
+                    raise Unsupported("closure with structured result")
+                t = S.truth(flow, r)
+                terms.append(z3.And(present, t) if is_any else z3.Implies(present, t))
+        e = (z3.Or(terms) if is_any else z3.And(terms)) if terms else z3.BoolVal(not is_any)
+        return flow.mkbool(P, e)
+
+    return fmt_models(as_items) + [(r"str::<impl str>::bytes$", s_bytes), (r"Bytes<'_> as Iterator>::(any|all)::<", b_quant),
+            (r"String::with_capacity$|String::new$", s_new), (r"String::push$", s_push), (r"String::push_str$", s_push_str),
             (r"str::<impl str>::len$", s_len), (r"str::<impl str>::chars$", s_chars),
             (r"<Chars<'_> as IntoIterator>::into_iter$", ident), (r"<Chars<'_> as Iterator>::next$", c_next)]
 
@@ -269,12 +372,110 @@ def rust_str_lit(s):
     return '"' + "".join("\\u{%x}" % ord(c) for c in s) + '"'
 
 
+NUMS = {
+    "Int": ["0", "-3", "7", "i32::MAX", "i32::MIN", "1000"],
+    "Nat": ["0u64", "1000u64", "4294967296u64", "u64::MAX"],
+    "Float": ["-2.25f64", "2.25f64", "2.0000000000001f64", "-0.5f64", "1.0e21f64", "1.0e-7f64", "2.0f64", "-1.0e300f64", "0.1f64", "123456.789f64",
+              "f64::MAX", "f64::MIN_POSITIVE", "-3.0f64", "0.30000000000000004f64"],
+}
+
+
+def number_symbolic(rep, base, fns, mains, F, vvariants):
+    """F on Int / Nat / Float values: is the text std's rendering of the machine number, or somebody's Display?"""
+    obs, cand = {}, {}
+    for kind in NUMS:
+        ob = Obligation(dict(base, functions=[F], shape="ValueObj::%s(x)" % kind, symbolic=["x (opaque)"], bounds={}), key="writer/number/%s" % kind)
+        rep.add(ob)
+        obs[kind] = ob
+        try:
+            if len(mains) != 1:
+                raise Unsupported("%s not found uniquely" % F)
+            flow = S.SemFlow(fns, mains[0], [], {"ValueObj": vvariants, "Option": ["None", "Some"]})
+            x = const("the_number")
+            pre = {"p_V": ("agg", "ty::value::ValueObj::%s" % kind, [x]), "_1": Ref("p_V")}
+            outs = flow.run("bb0", stop_at=(), pre=pre, pc=list(S.BASE_AXIOMS))
+            np_, via, other = 0, set(), set()
+            for Q, end in outs:
+                if end != "return" or not flow.feasible(Q.pc):
+                    continue
+                fin = [c for c in Q.calls if c[0].endswith("is_finite")]
+                if fin and z3.is_expr(fin[-1][2]):
+                    sol = z3.Solver()
+                    sol.add(*Q.pc)
+                    sol.add(DISC(S.SV(fin[-1][2])) != 0)
+                    if sol.check() != z3.sat:
+                        continue                       # the non-finite path: no JSON notation exists, outside the property
+                np_ += 1
+                rt = flow.term(Q.locals.get("_0"))
+                rec = next((c for c in Q.calls if c[2] is not None and z3.is_expr(c[2]) and c[2].eq(rt)), None)
+                name = rec[0] if rec is not None else str(rt)[:80]
+                has_x = z3.is_expr(rt) and any(t.eq(x) for t in _subterms(rt))
+                if rec is not None and has_x and "ValueObj" not in name and re.search(r"ToString>::to_string$|fmt::format$|must_use::<String>$", name):
+                    via.add(re.sub(r"^.*?(<\w+ as ToString>::to_string|fmt::format|must_use::<String>)$", r"\1", name))
+                else:
+                    other.add(name)
+            ob["queries"] = flow.queries
+            if np_ == 0:
+                ob.update(verdict=BROKEN, reason="no path of %s returns for a %s value (vacuous encoding)" % (F, kind))
+            elif other:
+                cand[kind] = sorted(other)[0]
+                ob.update(verdict=VIOLATED, reason="a %s is not written by std's rendering of the machine number but by `%s`" % (kind, sorted(other)[0][:120]))
+            else:
+                ob.update(verdict=HELD, reason="on all %d paths a %s is written by std's rendering of the number itself (%s); contract: that text is a JSON number denoting the value (sampled natively on %d values)" % (
+                    np_, kind, ", ".join(sorted(via)), len(NUMS[kind])))
+        except Unsupported as e:
+            ob.update(verdict=INCONCLUSIVE, reason="unsupported-construct: " + str(e)[:200])
+    return obs, cand
+
+
+def number_cases(nat, F):
+    for kind, vals in NUMS.items():
+        for i, v in enumerate(vals):
+            ctor = {"Int": "ValueObj::Int(%s)", "Nat": "ValueObj::Nat(%s)", "Float": "ValueObj::from(%s)"}[kind] % v
+            nat.add("n%s%d" % (kind, i), "format!(\"{} {}\", %s(&%s), %s)" % (F, ctor, {"Int": "(%s) as i128" % v, "Nat": "(%s) as i128" % v, "Float": "format!(\"{:016x}\", (%s).to_bits())" % v}[kind]))
+
+
+def number_finish(res, obs, cand):
+    """native: the real writer's text for each sample, read by python's json, must be the number"""
+    import struct
+    for kind, vals in NUMS.items():
+        ob = obs.get(kind)
+        if ob is None or ob.get("verdict") not in (HELD, VIOLATED):
+            continue
+        bad = None
+        for i, v in enumerate(vals):
+            got = (res or {}).get("n%s%d" % (kind, i))
+            if got is None or got.startswith("PANIC"):
+                bad = bad or (v, got, "no result")
+                continue
+            text, ref = got.rsplit(" ", 1)
+            try:
+                val = json.loads(text)
+                if kind == "Float":
+                    want = struct.unpack(">d", bytes.fromhex(ref))[0]
+                    ok = isinstance(val, (int, float)) and float(val) == want
+                else:
+                    ok = isinstance(val, int) and not isinstance(val, bool) and val == int(ref)
+            except ValueError as e:
+                ok, val = False, "json.loads: %s" % e
+            if not ok:
+                bad = bad or (v, text, val)
+        ob["end_to_end"] = {"samples": len(vals), "first mismatch": None if not bad else {"value": bad[0], "text written": bad[1], "read back": str(bad[2])}}
+        if ob["verdict"] == VIOLATED and not bad:
+            ob.update(verdict=INCONCLUSIVE, reason="%s; on the %d sampled values the text still reads back as the number" % (ob["reason"], len(vals)))
+        elif ob["verdict"] == VIOLATED:
+            ob["reason"] += ": %s is written `%s`" % (bad[0], bad[1])
+            ob["model"] = {"value": bad[0], "text": bad[1]}
+        elif bad:
+            ob.update(verdict=VIOLATED, reason="std's rendering does not read back: %s is written `%s` (read back %s)" % bad)
+
+
 def stage(rep, s, tsrc, F, tier, only, text=None):
     """decides G; returns nothing (verdicts are final: replayed here)"""
     t0 = time.time()
     kmax = 2 if tier == "quick" else 3
     keyD = "writer/Str/dispatch"
-    keys = [keyD] + ["string-kernel/chars=%d" % k for k in range(kmax + 1)] + ["string-kernel/translation"]
+    keys = [keyD] + ["string-kernel/chars=%d" % k for k in range(kmax + 1)] + ["string-kernel/translation"] + ["writer/number/" + k for k in NUMS]
     if only and not any(o in k for o in only.split(",") for k in keys):
         return
     base = dict(engine="mirsem (MIR -> z3 %s)" % z3.get_version_string(), solver="z3")
@@ -325,11 +526,17 @@ def stage(rep, s, tsrc, F, tier, only, text=None):
             obD.update(verdict=INCONCLUSIVE, reason="for ValueObj::Str(s) the text is produced by %s: not a single crate-local string kernel this stage can execute" % sorted(cands))
     except Unsupported as e:
         obD.update(verdict=INCONCLUSIVE, reason="unsupported-construct: " + str(e)[:200])
+    numobs, numcand = number_symbolic(rep, base, fns, mains, F, vvariants)
     if not G:
+        nat = NativeRun(s, "erg_compiler", "crates/erg_compiler/transpile.rs")
+        number_cases(nat, F)
+        res, dt = nat.run()
+        number_finish(res, numobs, numcand)
         return
     gsrc = extract_fn(tsrc, G) or ""
     rep.add_function(G, "crates/erg_compiler/transpile.rs", gsrc)
-    gf = [f for f in M.parse_mir(text, want=["fn " + G, G]).values() if f.short == G]
+    gfns = M.parse_mir(text, want=["fn " + G, G])
+    gf = [f for f in gfns.values() if f.short == G]
     del text
     tables = {}
     for mm in re.finditer(r"const (\w+): &\[u8; \d+\] = b\"([^\"]*)\";", gsrc):
@@ -355,7 +562,7 @@ def stage(rep, s, tsrc, F, tier, only, text=None):
         chars = [z3.Int("c%d" % i) for i in range(k)]
         dom = [z3.And(c >= 0, c <= 0x10FFFF, z3.Or(c < 0xD800, c > 0xDFFF)) for c in chars]
         try:
-            flow = StrFlow(fns, gf[0], models(chars), {"Option": ["None", "Some"]}, max_steps=20000)
+            flow = StrFlow(gfns, gf[0], models(chars), {"Option": ["None", "Some"]}, max_steps=20000)
             for name, tb in tables.items():
                 flow.named_consts["transpile::%s::%s" % (G, name)] = tb
             pre = {"_1": const("the_input")}
@@ -420,7 +627,9 @@ def stage(rep, s, tsrc, F, tier, only, text=None):
         nat.add("v%d" % i, "__hexs(%s(%s))" % (G, rust_str_lit(v)))
     for n, (k, ob, what, vals) in enumerate(cex):
         nat.add("x%d" % n, "__hexs(%s(%s))" % (G, rust_str_lit("".join(chr(v) for v in vals))))
+    number_cases(nat, F)
     res, dt = nat.run()
+    number_finish(res, numobs, numcand)
     if res is None:
         obT.update(verdict=BROKEN, reason="native run failed")
         for k, ob, what, vals in cex:
